@@ -29,9 +29,9 @@ def RULE(tier):
     return ("real http.Client (plain, and TLS flavour with a fake TLS context) with 1-%d queued requests (distinct path and reply "
             "tag; each queued in one of 5 ways: request() with qargs and body, a raw request dict, the query inside the path, no query, a HEAD request), reconnectable or not, against a scripted server whose behaviour per request is enumerated completely: answer at once / "
             "after 2 idle rounds / in two fragments / redirect (301|302|303|307) to another path / to a second listener / redirect without a Location / 204 without a length / answer then "
-            "close / (TLS) redirect to an http:// location. Oracle: no request bytes reach the server while an earlier response is "
+            "close / a bare 100 Continue first / redirect to an absolute Location without a port (listeners on 80 and 443) / redirect to https on the second listener, which redirects down to http:// / (TLS) redirect to an http:// location. Oracle: no request bytes reach the server while an earlier response is "
             "unfinished; client.responses holds at most one entry per request in queue order with its tag and redirect history; "
-            "https->http is refused without any connection to the plain listener; exactly one entry per request when the connection "
+            "https->http is refused without any connection to the plain listener, also on the second hop of a chain; exactly one entry per request when the connection "
             "stays usable." % (2 if tier == "quick" else 3))
 
 
